@@ -21,6 +21,8 @@ Local Notation M := (@Gadgets.M p).
 Definition is_raise_with (t : Sym.gtriple p) (c : cmd) : Prop :=
   match c with CRaiseIf _ _ u => u = t | _ => True end.
 
+Ltac merr R := unfold model_err in R; inversion R; subst; repeat split; repeat constructor.
+
 Lemma upd_counters_triple (s : gst) a b c : cur_triple (upd_counters s a b c) = cur_triple s /\ unw (upd_counters s a b c) = unw s.
 Proof. split; reflexivity. Qed.
 
@@ -34,19 +36,19 @@ Proof.
   - inversion R; subst. repeat split. constructor.
   - inversion R; subst. repeat split. constructor; [reflexivity|constructor].
   - exact (IH s s r s' cs R).
-  - destruct (run (k _) _) as [[r0 s0] c0] eqn:E. inversion R; subst.
+  - destruct (vscopedb _ _ h); [|merr R]. destruct (run (k _) _) as [[r0 s0] c0] eqn:E. inversion R; subst.
     destruct (IH _ _ _ _ _ E) as (T & U & F). repeat split; try assumption. constructor; [exact I|exact F].
-  - destruct (run (k _) _) as [[r0 s0] c0] eqn:E. inversion R; subst.
+  - destruct (vscopedb _ _ h); [|merr R]. destruct (run (k _) _) as [[r0 s0] c0] eqn:E. inversion R; subst.
     destruct (IH _ _ _ _ _ E) as (T & U & F). repeat split; try assumption. constructor; [exact I|exact F].
   - destruct (IH _ _ _ _ _ R) as (T & U & F). repeat split; assumption.
-  - destruct (emittable c && cmd_scoped (npub s) (npriv s) c) eqn:Ec.
-    + destruct (run k s) as [[r0 s0] c0] eqn:E. inversion R; subst.
-      destruct (IH _ _ _ _ E) as (T & U & F). repeat split; try assumption. constructor; [|exact F].
-      apply andb_prop in Ec. destruct Ec as [Ec _]. destruct c; try exact I; discriminate Ec.
-    + inversion R; subst. repeat split. constructor; [reflexivity|constructor].
-  - destruct (run k s) as [[r0 s0] c0] eqn:E. inversion R; subst.
+  - destruct (emittable c && cmd_scoped (npub s) (npriv s) c && cmd_vscoped (npub s) (npriv s) c) eqn:Ec; [|merr R].
+    destruct (run k s) as [[r0 s0] c0] eqn:E. inversion R; subst.
+    destruct (IH _ _ _ _ E) as (T & U & F). repeat split; try assumption. constructor; [|exact F].
+    apply andb_prop in Ec. destruct Ec as [Ec _]. apply andb_prop in Ec. destruct Ec as [Ec _]. destruct c; try exact I; discriminate Ec.
+  - destruct (bscopedb _ _ b); [|merr R]. destruct (run k s) as [[r0 s0] c0] eqn:E. inversion R; subst.
     destruct (IH _ _ _ _ E) as (T & U & F). repeat split; try assumption. constructor; [reflexivity|exact F].
   - (* Local: the region's body runs with the base triple unchanged; globals restored on both exits *)
+    destruct (globals_scoped _ _ _ _ _); [|merr R].
     set (s_in := upd_globals s (Some g) i g (match unw s with None => Some (cur_triple s) | Some u => Some u end)) in *.
     assert (B : unw_triple s_in = unw_triple s) by (unfold unw_triple, s_in; cbn; destruct (unw s); reflexivity).
     destruct (run body s_in) as [[[x|e] s1] c1] eqn:Eb.
@@ -87,19 +89,19 @@ Proof.
   - inversion R; subst. repeat split. constructor.
   - inversion R; subst. repeat split. constructor; [reflexivity|constructor].
   - exact (IH s s r s' cs R).
-  - destruct (run (k _) _) as [[r0 s0] c0] eqn:E. inversion R; subst.
+  - destruct (vscopedb _ _ h); [|merr R]. destruct (run (k _) _) as [[r0 s0] c0] eqn:E. inversion R; subst.
     destruct (IH _ _ _ _ _ E) as (T & U & F). repeat split; try assumption. constructor; [exact I|exact F].
-  - destruct (run (k _) _) as [[r0 s0] c0] eqn:E. inversion R; subst.
+  - destruct (vscopedb _ _ h); [|merr R]. destruct (run (k _) _) as [[r0 s0] c0] eqn:E. inversion R; subst.
     destruct (IH _ _ _ _ _ E) as (T & U & F). repeat split; try assumption. constructor; [exact I|exact F].
   - destruct (IH _ _ _ _ _ R) as (T & U & F). repeat split; assumption.
-  - destruct (emittable c && cmd_scoped (npub s) (npriv s) c) eqn:Ec.
-    + destruct (run k s) as [[r0 s0] c0] eqn:E. inversion R; subst.
-      destruct (IH _ _ _ _ E) as (T & U & F). repeat split; try assumption. constructor; [|exact F].
-      apply andb_prop in Ec. destruct Ec as [Ec _]. destruct c; try exact I; discriminate Ec.
-    + inversion R; subst. repeat split. constructor; [reflexivity|constructor].
-  - destruct (run k s) as [[r0 s0] c0] eqn:E. inversion R; subst.
+  - destruct (emittable c && cmd_scoped (npub s) (npriv s) c && cmd_vscoped (npub s) (npriv s) c) eqn:Ec; [|merr R].
+    destruct (run k s) as [[r0 s0] c0] eqn:E. inversion R; subst.
+    destruct (IH _ _ _ _ E) as (T & U & F). repeat split; try assumption. constructor; [|exact F].
+    apply andb_prop in Ec. destruct Ec as [Ec _]. apply andb_prop in Ec. destruct Ec as [Ec _]. destruct c; try exact I; discriminate Ec.
+  - destruct (bscopedb _ _ b); [|merr R]. destruct (run k s) as [[r0 s0] c0] eqn:E. inversion R; subst.
     destruct (IH _ _ _ _ E) as (T & U & F). repeat split; try assumption. constructor; [reflexivity|exact F].
-  - set (s_in := upd_globals s (Some g) i g (match unw s with None => Some (cur_triple s) | Some u => Some u end)) in *.
+  - destruct (globals_scoped _ _ _ _ _); [|merr R].
+    set (s_in := upd_globals s (Some g) i g (match unw s with None => Some (cur_triple s) | Some u => Some u end)) in *.
     assert (B : unw_triple s_in = unw_triple s) by (unfold unw_triple, s_in; cbn; destruct (unw s); reflexivity).
     destruct (run body s_in) as [[[x|e] s1] c1] eqn:Eb.
     + destruct (IHb _ _ _ _ Eb) as (T1 & U1 & F1). rewrite B in F1.
@@ -130,35 +132,38 @@ Theorem run_scoped : forall lvl A (m : M lvl A) s r s' cs,
   run m s = (r, s', cs) ->
   scoped_cmds (npub s) (npriv s) cs = true /\ npub s' = npub s + count_pub cs /\ npriv s' = npriv s + count_priv cs.
 Proof.
+  assert (ME : forall A (s : gst) (r : A + exn) s' cs, model_err s = (r, s', cs) ->
+               scoped_cmds (npub s) (npriv s) cs = true /\ npub s' = npub s + count_pub cs /\ npriv s' = npriv s + count_priv cs).
+  { intros A s r s' cs R. unfold model_err in R. inversion R; subst. cbn. unfold count_pub, count_priv. cbn. repeat split; lia. }
   intros lvl A m. induction m as [A a|A e|A k IH|A h k IH|A h k IH|A k IH|A c k IH|A b e k IH|A X g i body IHb k IHk|A H g i o k IH];
     intros s r s' cs R; cbn [run] in R.
   - inversion R; subst. cbn. unfold count_pub, count_priv. cbn. repeat split; lia.
   - inversion R; subst. cbn. unfold count_pub, count_priv. cbn. repeat split; lia.
   - exact (IH s s r s' cs R).
-  - destruct (run (k _) _) as [[r0 s0] c0] eqn:E. inversion R; subst.
+  - destruct (vscopedb _ _ h); [|exact (ME _ _ _ _ _ R)]. destruct (run (k _) _) as [[r0 s0] c0] eqn:E. inversion R; subst.
     destruct (IH _ _ _ _ _ E) as (S1 & P1 & W1). cbn in *. unfold count_pub, count_priv in *. cbn [filter length]. rewrite ?Nat2Z.inj_succ.
     repeat split; [exact S1|lia|lia].
-  - destruct (run (k _) _) as [[r0 s0] c0] eqn:E. inversion R; subst.
+  - destruct (vscopedb _ _ h); [|exact (ME _ _ _ _ _ R)]. destruct (run (k _) _) as [[r0 s0] c0] eqn:E. inversion R; subst.
     destruct (IH _ _ _ _ _ E) as (S1 & P1 & W1). cbn in *. unfold count_pub, count_priv in *. cbn [filter length]. rewrite ?Nat2Z.inj_succ.
     repeat split; [exact S1|lia|lia].
   - destruct (IH _ _ _ _ _ R) as (S1 & P1 & W1). cbn in *. repeat split; assumption.
-  - destruct (emittable c && cmd_scoped (npub s) (npriv s) c) eqn:Ec.
-    + destruct (run k s) as [[r0 s0] c0] eqn:E. inversion R; subst.
-      destruct (IH _ _ _ _ E) as (S1 & P1 & W1). apply andb_prop in Ec. destruct Ec as [Em Ec].
-      assert (NA : count_pub (c :: c0) = count_pub c0 /\ count_priv (c :: c0) = count_priv c0).
-      { unfold count_pub, count_priv. destruct c; try discriminate Em; cbn; split; reflexivity. }
-      destruct NA as [N1 N2]. rewrite N1, N2. repeat split; try assumption.
-      destruct c; try discriminate Em; cbn [scoped_cmds]; rewrite Ec, S1; reflexivity.
-    + inversion R; subst. cbn. unfold count_pub, count_priv. cbn. repeat split; lia.
-  - destruct (run k s) as [[r0 s0] c0] eqn:E. inversion R; subst.
+  - destruct (emittable c && cmd_scoped (npub s) (npriv s) c && cmd_vscoped (npub s) (npriv s) c) eqn:Ec; [|exact (ME _ _ _ _ _ R)].
+    destruct (run k s) as [[r0 s0] c0] eqn:E. inversion R; subst.
+    destruct (IH _ _ _ _ E) as (S1 & P1 & W1). apply andb_prop in Ec. destruct Ec as [Ec _]. apply andb_prop in Ec. destruct Ec as [Em Ec].
+    assert (NA : count_pub (c :: c0) = count_pub c0 /\ count_priv (c :: c0) = count_priv c0).
+    { unfold count_pub, count_priv. destruct c; try discriminate Em; cbn; split; reflexivity. }
+    destruct NA as [N1 N2]. rewrite N1, N2. repeat split; try assumption.
+    destruct c; try discriminate Em; cbn [scoped_cmds]; rewrite Ec, S1; reflexivity.
+  - destruct (bscopedb _ _ b); [|exact (ME _ _ _ _ _ R)]. destruct (run k s) as [[r0 s0] c0] eqn:E. inversion R; subst.
     destruct (IH _ _ _ _ E) as (S1 & P1 & W1). cbn. unfold count_pub, count_priv in *. cbn. repeat split; assumption.
-  - set (s_in := upd_globals s (Some g) i g _) in *.
+  - destruct (globals_scoped _ _ _ _ _); [|exact (ME _ _ _ _ _ R)].
+    set (s_in := upd_globals s (Some g) i g _) in *.
     destruct (run body s_in) as [[[x|e] s1] c1] eqn:Eb.
     + destruct (IHb _ _ _ _ Eb) as (S1 & P1 & W1). cbn in S1, P1, W1.
       destruct (run (k x) _) as [[r2 s2] c2] eqn:Ek. inversion R; subst.
       destruct (IHk x _ _ _ _ Ek) as (S2 & P2 & W2). cbn in S2, P2, W2.
       rewrite scoped_app, count_pub_app, count_priv_app, S1. rewrite <- P1, <- W1, S2. repeat split; lia.
     + destruct (IHb _ _ _ _ Eb) as (S1 & P1 & W1). cbn in S1, P1, W1. inversion R; subst. cbn. repeat split; assumption.
-  - destruct (IH _ _ _ _ R) as (S1 & P1 & W1). cbn in *. repeat split; assumption.
+  - destruct (globals_scoped _ _ _ _ _); [|exact (ME _ _ _ _ _ R)]. destruct (IH _ _ _ _ R) as (S1 & P1 & W1). cbn in *. repeat split; assumption.
 Qed.
 End F.
